@@ -2,7 +2,7 @@
 # Runs every claimed check of MANIFEST.json (quick by default) one after the
 # other; prints a summary line per property.
 TIER="${1:-quick}"
-cd "$(dirname "$0")"
+cd "$(dirname "$0")"; mkdir -p out evidence
 rc_all=0
 for id in $(/venv/bin/python -c "import json;print(' '.join(c['property_id'] for c in json.load(open('MANIFEST.json'))['checks']))"); do
   t0=$(date +%s)
